@@ -150,6 +150,71 @@ func (tt *verifC19Topics) Update(topic string, update map[string]interface{}) er
 	return tt.u.Update(types.ZeroUid, update)
 }
 
+// verifC19Acct is the store behind the credential / tag histories: one account with its tag list and its validated
+// credentials.  UpdateTags mirrors the SQL adapters (db/postgres/adapter.go:1153-1211, db/mysql/adapter.go:1303-1355):
+// the set is rewritten and the remaining rows are read back with `var allTags []string` + append, so an EMPTY list
+// comes back as a nil slice (the reference adapter harness/server/db/memadp does the same).
+type verifC19Acct struct {
+	store.UsersPersistenceInterface
+	tags  []string
+	creds map[string]bool
+}
+
+func (a *verifC19Acct) DelCred(id types.Uid, method, value string) error {
+	if !a.creds[method+":"+value] {
+		return types.ErrNotFound
+	}
+	delete(a.creds, method+":"+value)
+	return nil
+}
+
+func (a *verifC19Acct) GetAllCreds(id types.Uid, method string, validatedOnly bool) ([]types.Credential, error) {
+	var out []types.Credential
+	for k := range a.creds {
+		if m, v, _ := strings.Cut(k, ":"); method == "" || m == method {
+			out = append(out, types.Credential{User: id.String(), Method: m, Value: v, Done: true})
+		}
+	}
+	return out, nil
+}
+
+func (a *verifC19Acct) UpdateTags(uid types.Uid, add, remove, reset []string) ([]string, error) {
+	idx := map[string]bool{}
+	if reset != nil {
+		add, remove = reset, nil
+	} else {
+		for _, x := range a.tags {
+			idx[x] = true
+		}
+	}
+	for _, x := range add {
+		idx[x] = true
+	}
+	for _, x := range remove {
+		delete(idx, x)
+	}
+	keys := make([]string, 0, len(idx))
+	for x := range idx {
+		keys = append(keys, x)
+	}
+	sort.Strings(keys)
+	var allTags []string
+	for _, x := range keys {
+		allTags = append(allTags, x)
+	}
+	a.tags = append([]string(nil), allTags...)
+	return allTags, nil
+}
+
+func (a *verifC19Acct) Update(uid types.Uid, update map[string]interface{}) error {
+	if t, ok := update["Tags"].(types.StringSlice); ok {
+		a.tags = append([]string(nil), t...)
+	} else if t, ok := update["Tags"].([]string); ok {
+		a.tags = append([]string(nil), t...)
+	}
+	return nil
+}
+
 func verifC19NsMap(ns []string) map[string]bool {
 	m := map[string]bool{}
 	for _, n := range ns {
@@ -614,6 +679,156 @@ func TestVerifC19Child(t *testing.T) {
 			}
 			rng.Shuffle(len(raw), func(a, b int) { raw[a], raw[b] = raw[b], raw[a] })
 			step(tp, owner, raw, false, imm, max, wk)
+		}
+	}
+	// ---- histories on a live `me` topic through the REAL Topic.handleMeta: {set tags} (replySetTags) and
+	// {del what=cred} (replyDelCred -> deleteCred -> real validator.Remove -> store.Users.DelCred / UpdateTags),
+	// interleaved with server-side credential validation (simulated: what replySetCred does with the list returned by
+	// UpdateTags, topic.go:2951).  After every step: reply code, the STORED tags and the topic's cached t.tags.
+	hwalks := geti("VERIF_C19_HWALKS", 40)
+	savedAV := globals.authValidators
+	globals.authValidators = nil // no credential is *required*: deleteCred goes straight to vld.Remove
+	defer func() { globals.authValidators = savedAV }()
+	immSets := [][]string{{}, {"rest"}, {"email"}, {"email", "tel"}, {"rest", "email", "tel"}, {"email", "tel"}}
+	credVocab := [][2]string{{"email", "a@c.d"}, {"email", "o'brien@example.com"}, {"tel", "+14155551212"}}
+	cp := func(x []string) []string { return append([]string{}, x...) }
+	var acct *verifC19Acct
+	var tp *Topic
+	var hImm []string
+	var hMax, hWalk, hStep int
+	hStart := func(walk int, imm []string, max int, emailIdx bool) {
+		hWalk, hStep, hImm, hMax = walk, 0, imm, max
+		globals.validators = map[string]credValidator{
+			"email": {requiredAuthLvl: []auth.Level{auth.LevelAuth}, addToTags: emailIdx},
+			"tel":   {requiredAuthLvl: []auth.Level{auth.LevelAuth}, addToTags: true},
+		}
+		globals.immutableTagNS = verifC19NsMap(imm)
+		globals.maxTagCount = max
+		acct = &verifC19Acct{creds: map[string]bool{}}
+		store.Users = acct
+		tp = newTopic(false, nil)
+	}
+	hRec := func(kind string) map[string]any {
+		hStep++
+		return map[string]any{"op": "hist", "walk": hWalk, "step": hStep, "kind": kind, "imm": verifC19CPs(hImm), "max": hMax,
+			"raw": [][]int{}, "rawNil": false, "cred": []int{}, "hadCred": false, "indexed": false,
+			"storedPre": verifC19CPs(acct.tags), "cachePre": verifC19CPs(tp.tags), "code": 0}
+	}
+	hEnd := func(rec map[string]any) {
+		rec["storedPost"], rec["cachePost"] = verifC19CPs(acct.tags), verifC19CPs(tp.tags)
+		emit(rec)
+	}
+	// a credential is validated: user.go:381,458 add the tag in the store, replySetCred (topic.go:2951) takes the returned list
+	hAdd := func(c [2]string) {
+		tag := c[0] + ":" + c[1]
+		if acct.creds[tag] {
+			return
+		}
+		rec := hRec("serveradd")
+		acct.creds[tag] = true
+		if globals.validators[c[0]].addToTags {
+			if utags, err := acct.UpdateTags(owner, []string{tag}, nil, nil); err == nil && utags != nil {
+				tp.tags = utags
+			}
+		}
+		rec["cred"], rec["indexed"] = verifC19CP(tag), globals.validators[c[0]].addToTags
+		hEnd(rec)
+	}
+	// {del what=cred} through the real handleMeta -> replyDelCred -> deleteCred -> validator.Remove / UpdateTags
+	hDel := func(c [2]string) bool {
+		tag := c[0] + ":" + c[1]
+		rec := hRec("delcred")
+		had := acct.creds[tag]
+		cachePre := cp(tp.tags)
+		rec["cred"], rec["hadCred"], rec["indexed"] = verifC19CP(tag), had, globals.validators[c[0]].addToTags
+		msg := &ClientComMessage{Del: &MsgClientDel{Id: "d1", Topic: "me", What: "cred", Cred: &MsgCredClient{Method: c[0], Value: c[1]}},
+			Id: "d1", Original: "me", RcptTo: tp.name, AsUser: owner.UserId(), AuthLvl: int(auth.LevelAuth), MetaWhat: constMsgDelCred,
+			Timestamp: time.Now(), sess: sess}
+		tp.handleMeta(msg)
+		drainHub()
+		rec["code"] = lastCode()
+		if selftest == "stalecache" {
+			tp.tags = cachePre // simulates a replyDelCred that forgets to refresh the cache (never set in normal runs)
+		}
+		hEnd(rec)
+		return had && !acct.creds[tag]
+	}
+	// {set tags} through the real handleMeta -> replySetTags
+	hSet := func(raw []string) {
+		rec := hRec("set")
+		rec["raw"] = verifC19CPs(raw)
+		msg := &ClientComMessage{Set: &MsgClientSet{Id: "s2", Topic: "me", MsgSetQuery: MsgSetQuery{Tags: cp(raw)}},
+			Id: "s2", Original: "me", RcptTo: tp.name, AsUser: owner.UserId(), AuthLvl: int(auth.LevelAuth), MetaWhat: constMsgMetaTags,
+			Timestamp: time.Now(), sess: sess}
+		tp.handleMeta(msg)
+		drainHub()
+		rec["code"] = lastCode()
+		hEnd(rec)
+	}
+
+	// scripted: credential tag present -> {del cred} -> {set tags}, with / without other tags, re-adding the old reserved tag or not
+	hw := 0
+	for _, imm := range immSets {
+		for _, c := range credVocab {
+			for _, other := range [][]string{{}, {"ab"}, {"ab", "rest:x"}} {
+				for _, second := range []bool{false, true} {
+					for _, readd := range []bool{true, false} {
+						hw++
+						hStart(100000+hw, imm, 16, true)
+						if second {
+							hAdd(credVocab[(hw+1)%len(credVocab)])
+						}
+						hAdd(c)
+						if len(other) > 0 {
+							hSet(append(cp(tp.tags), other...))
+						}
+						old := cp(tp.tags)
+						hDel(c)
+						if readd {
+							hSet(append(old, "cd")) // the old reserved tag + an ordinary change
+							hSet(append(cp(acct.tags), "cd"))
+						} else {
+							hSet(append(cp(acct.tags), "cd")) // honest: what is left + an ordinary change
+							hSet(append(old, "ef"))
+						}
+					}
+				}
+			}
+		}
+	}
+	// seeded walks
+	for wk := 1; wk <= hwalks; wk++ {
+		hStart(wk, immSets[rng.Intn(len(immSets))], []int{3, 16}[rng.Intn(2)], rng.Intn(5) != 0)
+		lastDeleted := ""
+		for i := 0; i < 30; i++ {
+			switch r := rng.Intn(10); {
+			case r < 3:
+				hAdd(credVocab[rng.Intn(len(credVocab))])
+			case r < 6:
+				c := credVocab[rng.Intn(len(credVocab))]
+				if hDel(c) {
+					lastDeleted = c[0] + ":" + c[1]
+				}
+			default:
+				raw := []string{}
+				switch m := rng.Intn(4); {
+				case m == 0 && lastDeleted != "":
+					raw = append(cp(tp.tags), lastDeleted, []string{"cd", "ab"}[rng.Intn(2)])
+				case m == 1:
+					raw = append(cp(acct.tags), []string{"cd", "ab", " Ab "}[rng.Intn(3)])
+				default:
+					for _, x := range tp.tags {
+						if rng.Intn(5) != 0 {
+							raw = append(raw, x)
+						}
+					}
+					for j := rng.Intn(3); j > 0; j-- {
+						raw = append(raw, setRaw[rng.Intn(len(setRaw))])
+					}
+				}
+				rng.Shuffle(len(raw), func(a, b int) { raw[a], raw[b] = raw[b], raw[a] })
+				hSet(raw)
+			}
 		}
 	}
 	t.Logf("C19 child basic=%v wrote %d records", basic, nrec)
